@@ -86,7 +86,7 @@ impl serde::Serialize for Record {
     }
 }
 
-#[derive(Clone, Debug, PartialEq, Eq)]
+#[derive(Clone, PartialEq, Eq)]
 pub enum Value {
     Str(String),
     // Consider big int
@@ -98,6 +98,37 @@ pub enum Value {
     Obj(im::HashMap<String, Value>),
     Array(Vec<Value>),
     None,
+}
+
+/// Debug view of an object's entries in key order (the map's own iteration order is private to
+/// each map instance and changes from run to run).
+struct SortedEntries<'a>(&'a im::HashMap<String, Value>);
+
+impl fmt::Debug for SortedEntries<'_> {
+    fn fmt(&self, f: &mut Formatter<'_>) -> fmt::Result {
+        f.debug_map()
+            .entries(self.0.iter().sorted_by(|l, r| l.0.cmp(r.0)))
+            .finish()
+    }
+}
+
+// Same output as the derived Debug, except that objects list their entries in key order, so that
+// the text of a value (concat, contains, length, ... of an object or of an array of objects) does
+// not depend on hash seeds.
+impl fmt::Debug for Value {
+    fn fmt(&self, f: &mut Formatter<'_>) -> fmt::Result {
+        match self {
+            Value::Str(s) => f.debug_tuple("Str").field(s).finish(),
+            Value::Int(i) => f.debug_tuple("Int").field(i).finish(),
+            Value::Float(x) => f.debug_tuple("Float").field(x).finish(),
+            Value::Bool(b) => f.debug_tuple("Bool").field(b).finish(),
+            Value::DateTime(dt) => f.debug_tuple("DateTime").field(dt).finish(),
+            Value::Duration(d) => f.debug_tuple("Duration").field(d).finish(),
+            Value::Obj(map) => f.debug_tuple("Obj").field(&SortedEntries(map)).finish(),
+            Value::Array(v) => f.debug_tuple("Array").field(v).finish(),
+            Value::None => f.write_str("None"),
+        }
+    }
 }
 
 // Equal values must hash equally: im::HashMap hashes its entries in its own private iteration
@@ -193,7 +224,7 @@ impl Display for Value {
             Value::Bool(ref s) => write!(f, "{}", s),
             Value::DateTime(ref dt) => write!(f, "{:?}", dt),
             Value::Duration(ref d) => write!(f, "{:?}", d),
-            Value::Obj(ref o) => write!(f, "{:?}", o),
+            Value::Obj(ref o) => write!(f, "{:?}", SortedEntries(o)),
             Value::Array(ref o) => write!(f, "{:?}", o),
             Value::None => write!(f, "None"),
         }
